@@ -144,7 +144,15 @@ def tinycoef(rng):
     """feasible (or bounded) only through a coefficient far below the floating-point tolerances: the double and mpf
     simplex misjudge it, only the exact tests protect the answer"""
     eps = F(1, 10 ** rng.choice([12, 13, 15, 18]))
-    kind = rng.choice(["feas", "feas", "feas-fixed", "bounded"])
+    kind = rng.choice(["feas", "feas", "feas-fixed", "bounded", "tinycost", "tinycost"])
+    if kind == "tinycost":
+        # min/max of (+-eps z + y): the free (or one-sided) z has a reduced cost below every floating-point dual
+        # tolerance, so the floating-point simplex stops with z non-basic although it must move
+        s = rng.choice([1, -1])
+        zb = rng.choice([(NINF, INF), (NINF, INF), (NINF, F(0)), (F(0), INF)])
+        cols = [[s * eps, zb[0], zb[1]], [F(1), F(0), F(10)]]
+        rows = [["G", F(-rng.rint(2, 9)), F(0), [(0, F(1)), (1, F(1))]], ["L", F(rng.rint(2, 9)), F(0), [(0, F(1)), (1, F(-1))]]]
+        return LP("min", cols, rows)
     if kind == "feas":
         # x <= 0 ; x + eps f >= 1/2 ; f + h <= 1/eps
         cols = [[F(rng.choice([0, 1, -1])), NINF, F(0)], [F(rng.choice([0, 1])), F(0), INF], [F(0), F(0), INF]]
